@@ -4,6 +4,10 @@ import vlib, e2e
 
 H = os.path.join(os.path.dirname(os.path.abspath(__file__)), "harness")
 
+# which lowering of ssa/abi/type.go the model describes (see Model.v abi_align / abi_ptrbytes): the repaired one
+FIX_ALIGN = os.environ.get("VERIF_C08_FIX_ALIGN", "true")
+FIX_PTRBYTES = os.environ.get("VERIF_C08_FIX_PTRBYTES", "true")
+
 # model targets (coq/theories/C08/Model.v) and the facts of ssa/target.go + go/types they stand for
 TARGETS = {"amd64": ("amd64", 8, 8), "arm64": ("arm64", 8, 8), "arm": ("arm", 4, 8),
            "386": ("i386", 4, 4), "wasm": ("wasm", 4, 8)}   # arch -> (Coq name, ptr, LLVM i64 ABI align)
@@ -67,18 +71,6 @@ def has_nested_aggregate(t):
     return False
 
 
-def ptr_last_not_final(t):
-    """some struct inside t has a field with pointers followed by a last field whose own PtrBytes differs
-    (the loop in abi.Builder.PtrBytes keeps the bytes of the LAST field)"""
-    k = t["k"]
-    if k == "arr":
-        return ptr_last_not_final(t["e"])
-    if k == "struct":
-        fs = t.get("f") or []
-        return len(fs) > 1 or any(ptr_last_not_final(f) for f in fs)
-    return False
-
-
 def oracle(r):
     """the property itself on the numbers the real code returned; returns list of (key, what)"""
     t, arch = r["t"], r["arch"]
@@ -101,9 +93,7 @@ def oracle(r):
         key = known_target_class() or "go-vs-llvm-disagree"
         out.append((key, "%s %s: go/types sizes (size,align,offsets)=%s, LLVM data layout=%s" % (arch, r["str"], go, ll)))
     if ab != (r["LS"], r["LA"]) or r["AF"] != r["AA"]:
-        key = known_target_class()
-        if key is None and arch == "386" and has_align8(t) and r["AS"] == r["LS"] and r["AA"] == 8 and r["LA"] == 4:
-            key = "386-abi-align64-is-8-llvm-4"
+        key = known_target_class()   # (the 386 Align(int64)=8 table entry is repaired: Builder.Align64)
         out.append((key or "abi-vs-llvm-disagree",
                     "%s %s: descriptor (Size,Align)=%s FieldAlign=%s, LLVM=%s" % (arch, r["str"], ab, r["AF"], ll[:2])))
     if raw != go[:2] and not (known_target_class()):
@@ -111,11 +101,7 @@ def oracle(r):
     # pointer words lie below PtrBytes; PtrBytes is 0 iff there is no pointer
     px, pb = r["PX"], r["AP"]
     if px > pb or (px == 0) != (pb == 0) or pb > max(r["AS"], r["LS"]):
-        key = None
-        if ptr_last_not_final(t) and pb < px:
-            key = "ptrbytes-uses-last-fields-bytes"
-        elif known_target_class():
-            key = known_target_class()
+        key = known_target_class()   # (the PtrBytes loop is repaired; only target-level offset disagreements remain)
         out.append((key or "ptrbytes-wrong", "%s %s: last pointer word ends at %d, descriptor PtrBytes=%d" % (arch, r["str"], px, pb)))
     # internal sanity of each computation: offsets aligned and increasing, size multiple of align
     for nm, (s, a, offs) in (("go", go), ("llvm", ll)):
@@ -124,7 +110,7 @@ def oracle(r):
         if bad:
             out.append((("%s-layout-malformed" % nm), "%s %s: size %d align %d offsets %s" % (arch, r["str"], s, a, offs)))
     if r["AA"] and r["AS"] % r["AA"]:
-        key = known_target_class() or ("386-abi-align64-is-8-llvm-4" if arch == "386" and has_align8(t) else None)
+        key = known_target_class()
         out.append((key or "abi-size-not-multiple-of-align", "%s %s: Size %d Align %d" % (arch, r["str"], r["AS"], r["AA"])))
     return out
 
@@ -269,12 +255,13 @@ def run(ck):
                              % (r["arch"], dl, dptr, d64, ptr, a64), r)
 
     # model vs implementation
-    hdr = "From LLGoV Require Import Lib.Common C08.Model.\nLocal Open Scope N_scope.\n"
+    hdr = ("From LLGoV Require Import Lib.Common C08.Model.\nLocal Open Scope N_scope.\n"
+           "Definition FIX_ALIGN := %s.\nDefinition FIX_PTRBYTES := %s.\n" % (FIX_ALIGN, FIX_PTRBYTES))
     terms = []
     for r in lay:
         obs = [r["GS"], r["GA"], r["LS"], r["LA"], r["AS"], r["AA"], r["AP"], r["RS"], r["RA"], r["PX"]] + r["GO"] + r["LO"] + r["RO"]
         terms.append("((%s, %s), %s)" % (TARGETS[r["arch"]][0], coq_ty(r["t"]), nl(obs)))
-    bad = set(ck.coq_mismatches(hdr, terms, "(fun x => observe (fst x) (snd x))", "nlist_eqb", "c08_lay")) if terms else set()
+    bad = set(ck.coq_mismatches(hdr, terms, "(fun x => observe FIX_ALIGN FIX_PTRBYTES (fst x) (snd x))", "nlist_eqb", "c08_lay")) if terms else set()
     ck.phase("model")
 
     classes = collections.Counter()
